@@ -8,6 +8,8 @@ import KlogV.Gen.GoSrc
 import KlogV.Gen.GoTxt
 import KlogV.Gen.GoPar
 import KlogV.Gen.GoCal
+import KlogV.Gen.Regexes
+import KlogV.GoSem.RxSpec
 open KlogV
 
 /-! ### `gs.*`: the same questions answered by the TRANSLATED Go source (KlogV/Gen/GoSrc.lean); the harness compares the
@@ -41,6 +43,39 @@ def gsSigLine (b : List GoTxt.Line) : String :=
   match (⟨0, b⟩ : GoTxt.block).SignificantLines with
   | .ok (sig, h, t) => s!"{sig.length}/{h}/{t}"
   | .error _ => "!"
+
+/-! ### `rx.groups`: what the GENERIC contract `SubmatchSpec` (GoSem/RxSpec.lean) says `FindStringSubmatch` returns, computed
+from the syntax tree translated from the source: all words of the marked language over the input (a list-of-successes parser,
+validation code, nothing is proved about it), and the group texts read off each. -/
+
+partial def rxParse (env : Rx.Env) : Rx.Re → List Nat → List (List Nat × List Nat)
+  | .zero, _ => []
+  | .eps, inp => [([], inp)]
+  | .cls c, inp =>
+    match c.neg, c.ranges, c.named with
+    | false, [(a, b)], [] =>
+      if a == b && a ≥ Rx.maxRune then [([a], inp)]      -- a marker: emitted, consumes nothing
+      else (match inp with | x :: r => if c.mem env x then [([x], r)] else [] | [] => [])
+    | _, _, _ => (match inp with | x :: r => if c.mem env x then [([x], r)] else [] | [] => [])
+  | .cat a b, inp => (rxParse env a inp).flatMap fun (u, r1) => (rxParse env b r1).map fun (v, r2) => (u ++ v, r2)
+  | .alt a b, inp => rxParse env a inp ++ rxParse env b inp
+  | .star a, inp => ([], inp) :: ((rxParse env a inp).filter (fun p => p.2.length < inp.length)).flatMap fun (u, r1) =>
+      (rxParse env (.star a) r1).map fun (v, r2) => (u ++ v, r2)
+  | .group _ a, inp => rxParse env a inp
+
+def rxAsciiEnv : Rx.Env := fun k a =>
+  if k == 0 then (65 ≤ a && a ≤ 90) || (97 ≤ a && a ≤ 122) else if k == 1 then a == 32 else false
+
+def rxGroupsLine (name : String) (n : Nat) (s : List Char) : String :=
+  match Gen.allRegexes.find? (fun g => g.1 == name) with
+  | none => "no-such-pattern"
+  | some g =>
+    let ms := ((rxParse rxAsciiEnv (Rx.mark g.2.1) (s.map Char.toNat)).filter (fun p => p.2.isEmpty)).map (·.1)
+    let ms := ms.eraseDups
+    match ms with
+    | [] => "nil"
+    | _ => " | ".intercalate (ms.map fun m =>
+        " ".intercalate ((s :: (List.range n).map (fun i => groupText m (i + 1))).map (fun g => hexOrDash (hexOfChars g))))
 
 def handleGs (args : List String) : Option String :=
   match args with
@@ -84,6 +119,7 @@ def handleGs (args : List String) : Option String :=
       | .error (.err _) => "err" | .error .panic => "panic"
     some (s!"wd={gsInt x.Weekday} q={gsInt x.Quarter} wk={match x.WeekNumber with | .ok (a, b) => s!"{a}-{b}" | _ => "!"} " ++
       s!"week={per (GoCal.Week.Period ⟨x⟩)} month={per (GoCal.Month.Period ⟨x⟩)} quarter={per (GoCal.Quarter.Period ⟨x⟩)} year={per (GoCal.Year.Period ⟨x⟩)}")
+  | ["rx.groups", name, n, h] => some (rxGroupsLine name n.toNat! (decodeGo (bytesOfHex h)))
   | ["gs.translated"] => some (" ".intercalate GoSrc.translated)
   | _ => none
 
